@@ -163,8 +163,12 @@ def gen(out):
     ordered(src, rel, ["rule balanced_braces()", "json:json_block()", "sonic_rs::from_str(json_str)"])
     if '"{" (balanced_braces() / (!"}" [_]))* "}"' in src:
         ignores = True
-    elif '"{" (balanced_braces() / json_string() / (!"}" [_]))* "}"' in src and \
+    elif ('"{" (balanced_braces() / json_string() / (!"}" [_]))* "}"' in src
+          or '"{" (balanced_braces() / json_string() / (![\'{\' | \'}\'] [_]))* "}"' in src) and \
             'rule json_string() = "\\"" ("\\\\" [_] / (![\'"\' | \'\\\\\'] [_]))* "\\""' in src:
+        # both spellings skip JSON string literals; the second (04c7300) additionally refuses to re-read an
+        # unclosed nested '{' as a plain character, which changes no result (such a text has no closing
+        # brace for the enclosing block either) and never concerns a text that is valid JSON
         ignores = False
     else:
         raise Missing(f"{rel}: unrecognised balanced_braces rule")
